@@ -333,8 +333,8 @@ def draw(source, ty, hint):
         return source.bool(hint)
     if tag == 'Str':
         return source.str(hint, ty.args[0])
-    if tag == 'Int' and ty.args and ty.args[0] == 'nonpattern':
-        pool = [7, None, 2.5, ['a']]
+    if tag == 'Any' and ty.args and ty.args[0] == 'nonpattern':
+        pool = [7, None, 2.5, ['a'], ('a',), (b'a', 'b'), {'a': 1}]
         if isinstance(source, ModelSource):
             return pool[0]
         return source.choice(hint + '.obj', pool)
